@@ -162,6 +162,7 @@ func (d Dialect) Ref() refmodel.Dialect {
 		CCFBMinusOne:     d["ccfb-num-reports-minus-one"],
 		CCFBRejectWrap:   d["ccfb-rejects-seq-wrap"],
 		REMBZeroMantissa: d["remb-zero-mantissa"],
+		APPPadFillCount:  d["app-padding-octets-carry-count"],
 	}
 }
 
